@@ -41,7 +41,7 @@ func (o sop) String() string {
 	return fmt.Sprintf("%s(%d->%d)", o.Op, o.P, o.Q)
 }
 
-var msgKinds = []string{"honest", "honest", "honest", "other-signer", "other-signer-with-key", "claims-other", "tampered-body", "tampered-sig", "unsigned", "other-context", "empty-body"}
+var msgKinds = []string{"honest", "honest", "honest", "other-signer", "other-signer-with-key", "claims-other", "tampered-body", "tampered-sig", "unsigned", "other-context", "other-context-verified", "empty-body"}
 var epochKinds = []string{"current", "current", "current", "stale", "zero", "future", "huge"}
 
 // genSops draws a history from the given operation mix over nPeers identities.
